@@ -16,11 +16,13 @@ From SV Require Gen.BD.
 From SV Require Gen.BEi.
 From SV Require Gen.BE.
 From SV Require Gen.BF.
+From SV Require Gen.BG.
 From SV Require Proofs.C06_BA.
 From SV Require Proofs.C06_BB.
 From SV Require Proofs.C06_BC.
 From SV Require Proofs.C06_BD.
 From SV Require Proofs.C06_BEi.
+From SV Require Proofs.C06_BG.
 From SV Require Proofs.C06_Rn.
 Import ListNotations.
 Local Open Scope R_scope.
@@ -675,6 +677,147 @@ Theorem C06_bei_part1_view :
   out = [g2; g3] /\ out = vslice [g0; g1; g2; g3] (nth 1 (psum [2%nat; 2%nat]) 0%nat) 2%nat.
 Proof. exact Proofs.C06_BEi.bei_part1_view. Qed.
 Print Assumptions C06_bei_part1_view.
+
+Theorem C06_bg_comp_parts :
+  forall g0 g1 g2 g3 g4 h0 h1 h2 h3 h4 out,
+  Gen.BG.bg_comp_rel [g0; g1; g2; g3; g4] [h0; h1; h2; h3; h4] out ->
+  exists o0 o1 o2,
+    Gen.Rn.v1_comp_rel [g0] [h0] o0 /\
+    Gen.C1.c1_comp_rel [g1; g2] [h1; h2] o1 /\
+    Gen.SO2.so2_comp_rel [g3; g4] [h3; h4] o2 /\
+    out = o0 ++ o1 ++ o2.
+Proof. exact Proofs.C06_BG.bg_comp_parts. Qed.
+Print Assumptions C06_bg_comp_parts.
+
+Theorem C06_bg_inv_parts :
+  forall g0 g1 g2 g3 g4 out,
+  Gen.BG.bg_inv_rel [g0; g1; g2; g3; g4] out ->
+  exists o0 o1 o2,
+    Gen.Rn.v1_inv_rel [g0] o0 /\
+    Gen.C1.c1_inv_rel [g1; g2] o1 /\
+    Gen.SO2.so2_inv_rel [g3; g4] o2 /\
+    out = o0 ++ o1 ++ o2.
+Proof. exact Proofs.C06_BG.bg_inv_parts. Qed.
+Print Assumptions C06_bg_inv_parts.
+
+Theorem C06_bg_log_parts :
+  forall g0 g1 g2 g3 g4 out,
+  Gen.BG.bg_log_rel [g0; g1; g2; g3; g4] out ->
+  exists o0 o1 o2,
+    Gen.Rn.v1_log_rel [g0] o0 /\
+    Gen.C1.c1_log_rel [g1; g2] o1 /\
+    Gen.SO2.so2_log_rel [g3; g4] o2 /\
+    out = o0 ++ o1 ++ o2.
+Proof. exact Proofs.C06_BG.bg_log_parts. Qed.
+Print Assumptions C06_bg_log_parts.
+
+Theorem C06_bg_exp_parts :
+  forall a0 a1 a2 a3 out,
+  Gen.BG.bg_exp_rel [a0; a1; a2; a3] out ->
+  exists o0 o1 o2,
+    Gen.Rn.v1_exp_rel [a0] o0 /\
+    Gen.C1.c1_exp_rel [a1; a2] o1 /\
+    Gen.SO2.so2_exp_rel [a3] o2 /\
+    out = o0 ++ o1 ++ o2.
+Proof. exact Proofs.C06_BG.bg_exp_parts. Qed.
+Print Assumptions C06_bg_exp_parts.
+
+Theorem C06_bg_Ad_parts :
+  forall g0 g1 g2 g3 g4 out,
+  Gen.BG.bg_Ad_rel [g0; g1; g2; g3; g4] out ->
+  exists o0 o1 o2,
+    Gen.Rn.v1_Ad_rel [g0] o0 /\
+    Gen.C1.c1_Ad_rel [g1; g2] o1 /\
+    Gen.SO2.so2_Ad_rel [g3; g4] o2 /\
+    out = blockdiag [o0; o1; o2].
+Proof. exact Proofs.C06_BG.bg_Ad_parts. Qed.
+Print Assumptions C06_bg_Ad_parts.
+
+Theorem C06_bg_ad_parts :
+  forall a0 a1 a2 a3 out,
+  Gen.BG.bg_ad_rel [a0; a1; a2; a3] out ->
+  exists o0 o1 o2,
+    Gen.Rn.v1_ad_rel [a0] o0 /\
+    Gen.C1.c1_ad_rel [a1; a2] o1 /\
+    Gen.SO2.so2_ad_rel [a3] o2 /\
+    out = blockdiag [o0; o1; o2].
+Proof. exact Proofs.C06_BG.bg_ad_parts. Qed.
+Print Assumptions C06_bg_ad_parts.
+
+Theorem C06_bg_dr_exp_parts :
+  forall a0 a1 a2 a3 out,
+  Gen.BG.bg_dr_exp_rel [a0; a1; a2; a3] out ->
+  exists o0 o1 o2,
+    Gen.Rn.v1_dr_exp_rel [a0] o0 /\
+    Gen.C1.c1_dr_exp_rel [a1; a2] o1 /\
+    Gen.SO2.so2_dr_exp_rel [a3] o2 /\
+    out = blockdiag [o0; o1; o2].
+Proof. exact Proofs.C06_BG.bg_dr_exp_parts. Qed.
+Print Assumptions C06_bg_dr_exp_parts.
+
+Theorem C06_bg_dr_expinv_parts :
+  forall a0 a1 a2 a3 out,
+  Gen.BG.bg_dr_expinv_rel [a0; a1; a2; a3] out ->
+  exists o0 o1 o2,
+    Gen.Rn.v1_dr_expinv_rel [a0] o0 /\
+    Gen.C1.c1_dr_expinv_rel [a1; a2] o1 /\
+    Gen.SO2.so2_dr_expinv_rel [a3] o2 /\
+    out = blockdiag [o0; o1; o2].
+Proof. exact Proofs.C06_BG.bg_dr_expinv_parts. Qed.
+Print Assumptions C06_bg_dr_expinv_parts.
+
+Theorem C06_bg_d2r_exp_parts :
+  forall a0 a1 a2 a3 out,
+  Gen.BG.bg_d2r_exp_rel [a0; a1; a2; a3] out ->
+  exists o0 o1 o2,
+    Gen.Rn.v1_d2r_exp_rel [a0] o0 /\
+    Gen.C1.c1_d2r_exp_rel [a1; a2] o1 /\
+    Gen.SO2.so2_d2r_exp_rel [a3] o2 /\
+    out = bundle_hess [o0; o1; o2].
+Proof. exact Proofs.C06_BG.bg_d2r_exp_parts. Qed.
+Print Assumptions C06_bg_d2r_exp_parts.
+
+Theorem C06_bg_d2r_expinv_parts :
+  forall a0 a1 a2 a3 out,
+  Gen.BG.bg_d2r_expinv_rel [a0; a1; a2; a3] out ->
+  exists o0 o1 o2,
+    Gen.Rn.v1_d2r_expinv_rel [a0] o0 /\
+    Gen.C1.c1_d2r_expinv_rel [a1; a2] o1 /\
+    Gen.SO2.so2_d2r_expinv_rel [a3] o2 /\
+    out = bundle_hess [o0; o1; o2].
+Proof. exact Proofs.C06_BG.bg_d2r_expinv_parts. Qed.
+Print Assumptions C06_bg_d2r_expinv_parts.
+
+Theorem C06_bg_identity_parts :
+  forall out, Gen.BG.bg_identity_rel out ->
+  exists o0 o1 o2,
+    Gen.Rn.v1_identity_rel o0 /\
+    Gen.C1.c1_identity_rel o1 /\
+    Gen.SO2.so2_identity_rel o2 /\
+    out = o0 ++ o1 ++ o2.
+Proof. exact Proofs.C06_BG.bg_identity_parts. Qed.
+Print Assumptions C06_bg_identity_parts.
+
+Theorem C06_bg_part0_view :
+  forall g0 g1 g2 g3 g4 out,
+  Gen.BG.bg_part0_rel [g0; g1; g2; g3; g4] out ->
+  out = [g0] /\ out = vslice [g0; g1; g2; g3; g4] (nth 0 (psum [1%nat; 2%nat; 2%nat]) 0%nat) 1%nat.
+Proof. exact Proofs.C06_BG.bg_part0_view. Qed.
+Print Assumptions C06_bg_part0_view.
+
+Theorem C06_bg_part1_view :
+  forall g0 g1 g2 g3 g4 out,
+  Gen.BG.bg_part1_rel [g0; g1; g2; g3; g4] out ->
+  out = [g1; g2] /\ out = vslice [g0; g1; g2; g3; g4] (nth 1 (psum [1%nat; 2%nat; 2%nat]) 0%nat) 2%nat.
+Proof. exact Proofs.C06_BG.bg_part1_view. Qed.
+Print Assumptions C06_bg_part1_view.
+
+Theorem C06_bg_part2_view :
+  forall g0 g1 g2 g3 g4 out,
+  Gen.BG.bg_part2_rel [g0; g1; g2; g3; g4] out ->
+  out = [g3; g4] /\ out = vslice [g0; g1; g2; g3; g4] (nth 2 (psum [1%nat; 2%nat; 2%nat]) 0%nat) 2%nat.
+Proof. exact Proofs.C06_BG.bg_part2_view. Qed.
+Print Assumptions C06_bg_part2_view.
 
 Theorem C06_v1_comp_additive :
   forall g0 h0 out,
